@@ -4,6 +4,7 @@ import (
 	"errors"
 	"fmt"
 	"math/rand/v2"
+	"runtime"
 	"sort"
 	"strings"
 	"sync"
@@ -472,8 +473,75 @@ func c10World(t *testing.T, p c10Params, instants *[]int64) rt.Result {
 	return worldResult(out, true, fmt.Sprintf("|%s %s %d", p.Script, p.Stop, p.Step), map[string]int{"stops": 1, "cease_expectations_checked": ceaseChecked})
 }
 
+// c10DeleteRace: an inbound connection and DeletePeer of its peer at the same
+// instant, forty times per world. Whoever wins, DeletePeer returns, the
+// connection ends up closed on corebgp's side, and the listener goes on serving.
+func c10DeleteRace(t *testing.T, seed uint64) rt.Result {
+	races, served := 0, 0
+	out := hz.Run(t, hz.Opts{Seed: seed, HookMode: []int{hz.HookOff, hz.HookYield}[seed%2]}, func(w *hz.World) {
+		r := rand.New(rand.NewPCG(seed, 1010))
+		for round := 0; round < 40; round++ {
+			ps := hz.StdPeer("10.0.1.1")
+			ps.Passive = true
+			w.MustAddPeer(ps)
+			if r.IntN(3) == 0 { // sometimes the peer already has a connection in progress
+				w.Connect(ps.Addr)
+				w.Settle()
+			}
+			ya, yb := r.IntN(6), r.IntN(6)
+			var rc *hz.RConn
+			var wg sync.WaitGroup
+			wg.Add(2)
+			go func() {
+				defer wg.Done()
+				for k := 0; k < ya; k++ {
+					runtime.Gosched()
+				}
+				rc = w.Connect(ps.Addr)
+			}()
+			go func() {
+				defer wg.Done()
+				for k := 0; k < yb; k++ {
+					runtime.Gosched()
+				}
+				if err := w.DeletePeer(ps.Addr); err != nil {
+					w.Violate("round %d: DeletePeer: %v", round, err)
+				}
+			}()
+			wg.Wait()
+			w.Settle()
+			races++
+			if len(rc.Msgs()) > 0 {
+				served++
+			}
+			if rc.Pair.Closed(0) == 0 {
+				w.Violate("round %d: a connection that arrived at the instant its peer was deleted is still open on corebgp's side after DeletePeer returned (it saw [%s])", round, typesOf(rc.Msgs()))
+				return
+			}
+		}
+		// the listener still serves
+		ps := hz.StdPeer("10.0.1.1")
+		ps.Passive = true
+		mon := w.MustAddPeer(ps)
+		rc := w.Connect(ps.Addr)
+		if !rc.Handshake(ps.RemoteAS, 90, remoteIDu) {
+			w.Violate("after %d delete/connect races the listener no longer serves the peer: [%s]", races, typesOf(rc.Msgs()))
+			return
+		}
+		w.Settle()
+		if !mon.Up() {
+			w.Violate("after %d delete/connect races a session no longer establishes", races)
+		}
+	})
+	return worldResult(out, races > 0, fmt.Sprintf("|deleterace %d", served*4/max(races, 1)), map[string]int{"delete_connect_races": races, "raced_connections_served": served})
+}
+
 func TestC10(t *testing.T) {
 	c := rt.Get()
+	for i := 0; i < c.N(300, 8000); i++ {
+		seed := uint64(i)*2685821657736338717 + c.Seed
+		runCase(t, "delete-race", i, map[string]any{"rounds": 40}, func(t *testing.T) rt.Result { return c10DeleteRace(t, seed) })
+	}
 	idx := 0
 	seeds := c.N(12, 200)
 	// (i) quiesced stops: every step of every script x stop kind x seeds
